@@ -459,6 +459,8 @@ Example C18_overlay_examples :
   dec_cfg [(1, FMap [(1, 10); (2, 20)]); (2, FNum 5); (3, FList [1; 2; 3]); (4, FSub [(1, 1); (2, 2)])]%N
           [(1, UMap [(2, Some 99)]); (4, UMap [(2, Some 7)]); (2, UNull)]%N =
     Some [(1, FMap [(1, 10); (2, 99)]); (2, FNum 5); (3, FList [1; 2; 3]); (4, FSub [(1, 1); (2, 7)])]%N /\
+  dec_cfg [(5, FPtr true [(1, 0); (2, 0)]); (6, FPtr false [(1, 4); (2, 5)]); (7, FPtr true [(1, 0)])]%N [(5, UMap [(2, Some 3)]); (6, UMap [(1, Some 9)])]%N =
+    Some [(5, FPtr false [(1, 0); (2, 3)]); (6, FPtr false [(1, 9); (2, 5)]); (7, FPtr true [(1, 0)])]%N /\
   dec_cfg [(1, FNum 5)]%N [(9, UNum 1)]%N = None /\
   dec_cfg [(4, FSub [(1, 1)])]%N [(4, UMap [(3, Some 1)])]%N = None /\
   cfg_agrees_b [(1, FMap [(1, 10); (2, 20)])]%N [(1, UMap [(2, Some 99)])]%N [(1, FMap [(2, 99)])]%N = false /\
